@@ -46,8 +46,8 @@ def unlossy(op):
 
 def ulp_ok(impl, spec):
     it, st = impl.split(" "), spec.split(" ")
-    if st == ["err"]:
-        return it[0] == "err"
+    if st[0] == "err":
+        return vlib.agrees(impl, spec)
     if it[0] != "ok" or st[0] != "ok":
         return False
     if it[2] != st[2]:
